@@ -32,6 +32,16 @@ Theorem C06_plus_roundtrip : forall h prev scal rest pos,
                = Ok (Some (picture_of_plus scal h), mkReader rest pos').
 Proof. exact plus_roundtrip. Qed.
 
+(* PLUSPTYPE with UFEP = 000 (nothing of OPPTYPE retransmitted), after ANY previous header or none: the parsed
+   header carries the previous header's OPPTYPE modes (`inherited prev` = its options restricted to the ten OPPTYPE
+   mode bits) together with its own PTYPE and MPPTYPE flags, no format, no RLNUM; TRPI/BCI are read exactly when
+   reference picture selection is inherited; exactly the header's bits are consumed. *)
+Theorem C06_plus_inherits : forall h prev scal rest pos,
+  wf_plus0 h ->
+  exists pos', decode_picture (mkOpts false scal) prev (mkReader (enc_plus0 scal (Z.testbit (inherited prev) 9) h ++ rest) pos)
+               = Ok (Some (picture_of_plus0 scal (inherited prev) h), mkReader rest pos').
+Proof. exact plus0_roundtrip. Qed.
+
 (* the temporal reference of every parsed header lies in 0..1023 *)
 Theorem C06_tr_range : forall o prev r p r',
   decode_picture o prev r = Ok (Some p, r') -> 0 <= temporal_reference p < 1024.
@@ -52,4 +62,5 @@ Proof. unfold wf_plus, byte_ok. cbn. repeat split; try lia. repeat constructor; 
 Print Assumptions C06_sorenson_roundtrip.
 Print Assumptions C06_baseline_roundtrip.
 Print Assumptions C06_plus_roundtrip.
+Print Assumptions C06_plus_inherits.
 Print Assumptions C06_tr_range.
